@@ -31,7 +31,7 @@ def main():
     try:
         for prop in props:
             t0 = time.time()
-            r = sh("cd %s && VERIF_SEED=%s ./check %s --tier %s" % (HERE, os.environ.get("VERIF_SEED", "1"), prop, os.environ.get("VERIF_TIER", "quick")))
+            r = sh("cd %s && VERIF_EVIDENCE_DIR=%s/work/evidence-scratch VERIF_SEED=%s ./check %s --tier %s" % (HERE, HERE, os.environ.get("VERIF_SEED", "1"), prop, os.environ.get("VERIF_TIER", "quick")))
             txt = r.stdout.decode("utf-8", "replace")
             fired = r.returncode == 1 and ("VIOLATION property=%s" % prop) in txt
             first = [l for l in txt.splitlines() if l.startswith("  #")][:1]
